@@ -112,7 +112,9 @@ impl<'a> Model<'a> {
         self.msgs.insert(m, MState { st, send: i, from, to, recv: None, was_held: st == St::Held });
     }
 
-    fn on_hold(&mut self, i: usize, pairs: &[(usize, usize)]) {
+    /// returns how many messages that were in flight became held
+    fn on_hold(&mut self, i: usize, pairs: &[(usize, usize)]) -> usize {
+        let mut caught = 0;
         let e = &self.evs[i];
         let m = links::moment(e, self.tick);
         let clock = link_clock(e, self.tick);
@@ -127,6 +129,7 @@ impl<'a> Model<'a> {
                         St::Timed
                     } else if links::certainly_in_flight(send, self.lmin, m) {
                         ms.was_held = true;
+                        caught += 1;
                         St::Held
                     } else {
                         St::Maybe
@@ -147,6 +150,7 @@ impl<'a> Model<'a> {
         for p in pairs {
             self.held.insert(*p);
         }
+        caught
     }
 
     fn on_release(&mut self, i: usize, pairs: &[(usize, usize)]) {
@@ -164,6 +168,26 @@ impl<'a> Model<'a> {
         }
         for p in pairs {
             self.held.remove(p);
+        }
+    }
+
+    /// LinkIter::deliver_all: every listed message of the link is scheduled for the next step.
+    fn on_deliver_all(&mut self, i: usize, p: (usize, usize)) {
+        let e = &self.evs[i];
+        let m = links::moment(e, self.tick);
+        let clock = link_clock(e, self.tick);
+        for ms in self.msgs.values_mut() {
+            if ms.recv.is_some() || pair_of(ms.from, ms.to) != p {
+                continue;
+            }
+            let send = &self.evs[ms.send];
+            ms.st = match ms.st {
+                St::Held => St::Released { group: e.seq, certain: true, clock },
+                St::Timed if links::certainly_arrived(send, self.lmax, self.tick, m) => St::Timed,
+                St::Released { .. } => ms.st,
+                // rescheduled ahead of its latency, or uncertain: no window applies any more
+                _ => St::Released { group: e.seq, certain: false, clock },
+            };
         }
     }
 
@@ -325,7 +349,7 @@ impl Property for C08 {
     fn budget(tier: Tier) -> u64 {
         match tier {
             Tier::Quick => 30_000,
-            Tier::Thorough => 600_000,
+            Tier::Thorough => 500_000,
         }
     }
 
@@ -410,7 +434,16 @@ impl Property for C08 {
                 plans.push((p, j % 4 == 3));
             }
         }
-        plans
+        let mut out: Vec<Scenario> = Vec::new();
+        {
+            // LinkIter::deliver_all instead of single deliveries
+            let mut sc = base.clone();
+            sc.manual = None;
+            sc.net.script.push((man.mark_step, Act::DeliverAll(a, b)));
+            sc.net.script.sort_by_key(|(s, _)| *s);
+            out.push(sc);
+        }
+        out.extend(plans
             .into_iter()
             .map(|(p, same_gap)| {
                 let mut sc = base.clone();
@@ -422,8 +455,8 @@ impl Property for C08 {
                 // the controller executes a step's actions in list order: keep Mark before the deliveries
                 sc.net.script.sort_by_key(|(s, _)| *s);
                 sc
-            })
-            .collect()
+            }));
+        out
     }
 
     fn run(sc: &Scenario, keep: bool) -> Report {
@@ -451,7 +484,6 @@ impl Property for C08 {
         let mut max_held_on_a_link = 0usize;
         let mut hol: BTreeMap<(u16, u8), (u64, bool)> = BTreeMap::new();
 
-
         for (i, e) in tr.evs.iter().enumerate() {
             match &e.kind {
                 EvKind::Send(m) => {
@@ -465,7 +497,8 @@ impl Property for C08 {
                 }
                 EvKind::Act(a @ Act::Hold(..)) => {
                     let pairs = model.unordered_pairs(a);
-                    model.on_hold(i, &pairs);
+                    let caught = model.on_hold(i, &pairs);
+                    rep.faults.add("message_in_flight_caught_by_hold", caught as u64);
                     rep.faults.inc("hold");
                     log.tag(if e.host.is_some() { "hold:host" } else { "hold:ctl" });
                     if e.host.is_some() {
@@ -483,9 +516,6 @@ impl Property for C08 {
                     }
                     for p in &pairs {
                         let c = model.msgs.values().filter(|m| m.recv.is_none() && m.st == St::Held && pair_of(m.from, m.to) == *p).count();
-                        if c >= 1 {
-                            rep.probes.inc("hold_caught_messages_in_flight");
-                        }
                         max_held_on_a_link = max_held_on_a_link.max(c);
                     }
                 }
@@ -499,6 +529,20 @@ impl Property for C08 {
                     model.on_release(i, &pairs);
                     rep.faults.inc("release");
                     log.tag(if e.host.is_some() { "release:host" } else { "release:ctl" });
+                }
+                EvKind::Act(Act::DeliverAll(a, b)) => {
+                    let p = pair_of(*a, *b);
+                    let c = model.msgs.values().filter(|m| m.recv.is_none() && m.st == St::Held && pair_of(m.from, m.to) == p).count();
+                    max_held_on_a_link = max_held_on_a_link.max(c);
+                    rep.faults.add("manual_deliver_all", c as u64);
+                    log.tag("deliver_all");
+                    model.on_deliver_all(i, p);
+                    for ((conn, dir), h) in hol.iter_mut() {
+                        let (f, t) = links::direction(net, &Msg::Fin { conn: *conn, dir: *dir });
+                        if pair_of(f, t) == p {
+                            h.1 = false;
+                        }
+                    }
                 }
                 EvKind::Deliver { what, .. } => {
                     log.tag("deliver");
@@ -808,7 +852,7 @@ mod tests {
         let mut model = Model { net: &net, evs: &evs, tick: 1000, lmin: 3000, lmax: 3000, msgs: BTreeMap::new(), order: vec![], held: BTreeSet::new(), calls: vec![] };
         model.on_send(0, m(0));
         model.on_send(1, m(1));
-        model.on_hold(2, &[(0, 1)]);
+        assert_eq!(model.on_hold(2, &[(0, 1)]), 1);
         assert_eq!(model.msgs[&m(0)].st, St::Timed);
         assert_eq!(model.msgs[&m(1)].st, St::Held);
         model.on_send(3, m(2));
@@ -818,5 +862,23 @@ mod tests {
         assert!(matches!(model.msgs[&m(2)].st, St::Released { certain: true, .. }));
         model.on_send(5, m(3));
         assert_eq!(model.msgs[&m(3)].st, St::Timed);
+    }
+
+    /// Sanity gate (DESIGN 9.5): the scenario of turmoil's own `manual_message_delivery` /
+    /// `hold_release_peers` tests, expressed in the DSL, must pass the oracle.
+    #[test]
+    fn repo_scenarios_pass_the_oracle() {
+        let cfg = SimCfg { min_latency_us: 2000, max_latency_us: 2000, tick_us: 1000, ..SimCfg::default() };
+        let conn = Conn { from: 1, to: 0, at_ms: 1, c2s: vec![(2, 1)], s2c: vec![(2, 1)], fin_c: None, fin_s: None, by_ip: false };
+        // hold, connect, deliver everything by hand, later release
+        let net = Net { cfg: cfg.clone(), hosts: 2, udp: vec![UdpBurst { from: 0, to: 1, at_ms: 2, count: 2, by_ip: false }], conns: vec![conn.clone()], hacts: vec![], script: vec![(1, Act::Hold(Sel::Name(0), Sel::Name(1))), (5, Act::DeliverAll(0, 1)), (9, Act::Release(Sel::Name(0), Sel::Name(1)))], steps: 30, sample_links: true };
+        let rep = C08::run(&Scenario { net, manual: None, vseed: 0 }, true);
+        assert!(rep.violation.is_none(), "{:?}\n{}", rep.violation, rep.log.join("\n"));
+        assert!(rep.log.iter().any(|l| l.contains("ConnOk")));
+        // hold issued from host code, release from the Sim handle
+        let net = Net { cfg, hosts: 2, udp: vec![], conns: vec![conn], hacts: vec![HostAct { host: 1, at_ms: 1, act: Act::Hold(Sel::Name(0), Sel::Name(1)) }], script: vec![(6, Act::Release(Sel::Name(1), Sel::Name(0)))], steps: 30, sample_links: true };
+        let rep = C08::run(&Scenario { net, manual: None, vseed: 0 }, true);
+        assert!(rep.violation.is_none(), "{:?}\n{}", rep.violation, rep.log.join("\n"));
+        assert!(rep.log.iter().any(|l| l.contains("ConnOk")));
     }
 }
